@@ -135,7 +135,7 @@ CHECKS.update({
              'log and run-info writes. The scenario is then re-executed once per crash point: process death immediately before each operation and after every proper prefix of every '
              'write (all prefixes <= 64 units, else 1, n/2, n-1); after each, a new chain must find either nothing (and recompute) or the complete correct value, the request must '
              'always recover, and a third chain must load without running. A per-crash-point tree digest must equal the recorded pre-operation digest (catches I/O that bypasses '
-             'the interposer). Fault sequences (run raises at entry / after partial output, wrong type, unserialisable value, generator raising after k items; singles and pairs; '
+             'the interposer). Every scenario is explored under two file models: write-through, and buffered (data handed to write() is lost unless flushed or closed before the crash). Fault sequences (run raises at entry / after partial output, wrong type, unserialisable value, generator raising after k items; singles and pairs; '
              'retry in the same and in a new chain) use the same oracle plus the <key>_error / resumable work-directory clauses.',
         note='Crash = process death (no power-loss block reordering; the library never syncs). H5Data / FigureData not covered (C-level I/O outside the interposer). Directory outputs carry an attempt-specific file so that leftovers of dead attempts are visible.',
         design='DESIGN.md §4 C05', engine='fsops+worlds'),
